@@ -38,6 +38,8 @@ def prove(plan, repo, tier):
     for ment in plan.get("modules", []):
         modname = ment["name"]
         try:
+            import itertools, vf.types as _T
+            _T._fresh = itertools.count(0)          # names (which influence solver search) do not depend on what ran before
             reg = Registry(repo); lib.install(reg); idioms.install(reg)
             mod = importlib.import_module(f"contracts.{modname}")
             quals = mod.build(reg)
